@@ -112,12 +112,16 @@ def same_modulo_sharing(text, i, m):
     return False
 
 
+def same_as_model(t, i, m):
+    """does the implementation do on this specification what the model of the code (with the recorded findings in it) does?"""
+    same = (i == m) if i.startswith("OK") or m.startswith("OK") else (canon_err(i) == canon_err(m))
+    return same or same_modulo_sharing(t, i, m)
+
+
 def correspondence(ctx, texts, impl, model, what="spec.Parse"):
     n = 0
     for t, i, m in zip(texts, impl, model):
-        same = (i == m) if i.startswith("OK") or m.startswith("OK") else (canon_err(i) == canon_err(m))
-        if not same and same_modulo_sharing(t, i, m):
-            same = True
+        same = same_as_model(t, i, m)
         if not same:
             n += 1
             if n <= 3:
